@@ -75,6 +75,12 @@ class MarginalRayHeightSolve(BaseSolve):
         offset = (self.height - ya[self.surface_idx]) / \
             ua[self.surface_idx - 1]
         offset = float(np.ravel(offset)[0])  # keep vertex positions scalar
+        if not np.isfinite(offset):
+            # no finite position reaches the requested height (marginal ray
+            # undefined or parallel to the axis): leave the surfaces where
+            # they are; a non-finite vertex position could never be repaired
+            # by a later call, because the shift is added to it
+            return
 
         # shift current surface and all subsequent surfaces
         for surface in self.optic.surface_group.surfaces[self.surface_idx:]:
